@@ -228,6 +228,23 @@ impl Space for CalSweep {
         }
         // 3-5. rebuild from fields
         let mc = temporal_rs::MonthCode::from_str(&code).expect("month code");
+        // the month-day of the date: same calendar, month code and day
+        {
+            let got = call(|| date.to_plain_month_day().map(|md| (md.calendar().identifier().to_string(), md.month_code().as_str().to_string())));
+            out.lockstep("to_plain_month_day keeps calendar and month code", &Ok((cal_id.to_string(), code.clone())), &got, |a, b| a == b, || attrs(vec![("fields", format!("{f:?}")), ("iso_calendar", (cal_id == "iso8601").to_string())]));
+        }
+        // the year-month of the date: same calendar, same year, month and month code
+        {
+            let got = call(|| date.to_plain_year_month().map(|ym| (ym.calendar().identifier().to_string(), ym.year(), ym.month(), ym.month_code().as_str().to_string())));
+            // the hidden reference date is the first of the calendar month: when that lies in an ISO month before
+            // the first representable year-month (-271821-04), there is no such year-month
+            let first_of_month = tmc_ref::r1::days_from_civil(y, m, d) - (cd as i64 - 1);
+            if first_of_month < tmc_ref::r1::days_from_civil(-271_821, 4, 1) {
+                out.lockstep("to_plain_year_month of a month that starts before the first representable year-month", &Err::<(), _>(ErrorKind::Range), &got.map(|_| ()), |_, _| true, || attrs(vec![("fields", format!("{f:?}"))]));
+            } else {
+                out.lockstep("to_plain_year_month keeps calendar, year, month and month code", &Ok((cal_id.to_string(), cy, cm, code.clone())), &got, |a, b| a == b, || attrs(vec![("fields", format!("{f:?}"))]));
+            }
+        }
         for (ovn, ov) in [("constrain", Some(ArithmeticOverflow::Constrain)), ("reject", Some(ArithmeticOverflow::Reject))] {
             let mk = || {
                 let mut p = PartialDate::default();
